@@ -230,6 +230,7 @@ int gettimeofday(struct timeval *tv, void *tz) {
 pid_t getpid(void) {
   static pid_t (*real)(void);
   if (!real) real = dlsym(RTLD_NEXT, "getpid");
+  if (!state) decide();   // (the very first thing a program does may be to ask: the simulator must be awake by then)
   if (state == 1 && have_pid) return fake_pid;
   return real();
 }
@@ -237,6 +238,7 @@ pid_t getpid(void) {
 pid_t getppid(void) {
   static pid_t (*real)(void);
   if (!real) real = dlsym(RTLD_NEXT, "getppid");
+  if (!state) decide();
   if (state == 1 && have_pid) return fake_pid / 2 + 1;
   return real();
 }
@@ -254,6 +256,7 @@ clock_t clock(void) {
 // holds. The unchanged compiler never asks; a compiler that starts to ask gets different answers in different environments.
 static long n_getenv;
 static char *fuzz_env(const char *name) {
+  if (!state) decide();
   char *v = env_get(name);
   if (state != 1 || !name || !strncmp(name, "ENVSIM_", 7) || !strncmp(name, "LD_", 3)) return v;
   const char *fz = env_get("ENVSIM_GETENV");
@@ -280,7 +283,8 @@ char *secure_getenv(const char *name) { return fuzz_env(name); }
 long sysconf(int name) {
   static long (*real)(int);
   if (!real) real = dlsym(RTLD_NEXT, "sysconf");
-  long v = state == 1 ? -1 : -1;
+  long v = -1;
+  if (!state) decide();
   if (state == 1 && (name == _SC_NPROCESSORS_ONLN || name == _SC_NPROCESSORS_CONF)) {
     const char *s = env_get("ENVSIM_IDS");
     if (s && (s = strrchr(s, ':'))) return 1 + atol(s + 1) % 64;
@@ -294,6 +298,7 @@ int uname(struct utsname *u) {
   static int (*real)(struct utsname *);
   if (!real) real = dlsym(RTLD_NEXT, "uname");
   int r = real(u);
+  if (!state) decide();
   const char *s = state == 1 ? env_get("ENVSIM_IDS") : NULL;
   if (r == 0 && s && (s = strrchr(s, ':'))) {
     long v = atol(s + 1);
@@ -307,6 +312,7 @@ int getrlimit(__rlimit_resource_t res, struct rlimit *rl) {
   static int (*real)(__rlimit_resource_t, struct rlimit *);
   if (!real) real = dlsym(RTLD_NEXT, "getrlimit");
   int r = real(res, rl);
+  if (!state) decide();
   const char *s = state == 1 ? env_get("ENVSIM_IDS") : NULL;
   if (r == 0 && s && (s = strrchr(s, ':')) && rl->rlim_cur != RLIM_INFINITY) rl->rlim_cur >>= atol(s + 1) % 3; // what is REPORTED; the real limit stays
   return r;
@@ -314,6 +320,7 @@ int getrlimit(__rlimit_resource_t res, struct rlimit *rl) {
 
 // identity of the user / machine / terminal, and kernel randomness: seeded per environment (ENVSIM_IDS="uid:tty:rand")
 static long ids_field(int k) {
+  if (!state) decide();
   const char *s = env_get("ENVSIM_IDS");
   if (state != 1 || !s) return -1;
   for (; k > 0 && s; k--) { s = strchr(s, ':'); if (s) s++; }
